@@ -332,7 +332,8 @@ def parallel(jobs, width=5):
 
 
 # ---------------------------------------------------------------------------------------------------
-NEGATIVES = [("MC_NegReplay.cfg", "OneChargePerQuestion"), ("MC_NegEcho.cfg", "ReplyCookieIsOwn"),
+NEGATIVES = [("MC_NegWireStore.cfg", "CookieRemembered"),   # the wire branch of "mismatched cookie over a stream" without its post-Next store
+             ("MC_NegReplay.cfg", "OneChargePerQuestion"), ("MC_NegEcho.cfg", "ReplyCookieIsOwn"),
              ("MC_Forms.cfg", "ClientWithinBudget"), ("MC_NegFitOutcome.cfg", "SameOutcomeAcrossEntries"),
              ("MC_NegFitCharge.cfg", "OneChargePerQuestion"), ("MC_NegReuse.cfg", "RememberedIsOwn"),
              ("MC_NegReset.cfg", "EvictionOnlyResets"), ("MC_NegShared.cfg", "NoSharedBucket")]
@@ -345,7 +346,7 @@ def tlc_jobs(ctx, thorough):
     full = [("MC_Entry.cfg", 2), ("MC_Free2.cfg", 3), ("MC_Budget.cfg", 4), ("MC_Cookie.cfg", 4), ("MC_Gate2.cfg", 4),
             ("MC_Free3.cfg", 3), ("MC_Live.cfg", 3), ("MC_FormsUnmapped.cfg", 1), ("MC_EdgeQ.cfg", 1), ("MC_Budget4.cfg", 4),
             ("MC_Big.cfg", 1), ("MC_Big2.cfg", 3)]
-    negatives = NEGATIVES if thorough else NEGATIVES[:5]
+    negatives = NEGATIVES if thorough else NEGATIVES[:6]
     sims = [("Sim_Budget.cfg", 40, 90), ("Sim_Cookie.cfg", 40, 90), ("Sim_Mixed.cfg", 30, 100), ("Sim_Entry.cfg", 25, 90),
             ("Sim_Forms.cfg", 12, 80), ("Sim_Big.cfg", 30, 90), ("Sim_Big2.cfg", 20, 90)]
     if thorough:
